@@ -193,7 +193,11 @@ def run_generator(interp, fn, args, kwargs=None, out_name='out'):
                 v.origin = 'Yielded'
             elif v.origin in ('Source', 'Shared', 'Yielded') and v.kind == 'list':
                 pass
-        ctx.out.arr = z3.Store(ctx.out.arr, ctx.out.len, as_v(v))
+        try:
+            vv = as_v(v)
+        except Unsupported:
+            vv = smt.fresh_v('opaque_yield')        # an external object: identity is tracked by the contract's own hook
+        ctx.out.arr = z3.Store(ctx.out.arr, ctx.out.len, vv)
         ctx.out.len = z3.simplify(ctx.out.len + 1)
         h = getattr(interp, 'on_yield', None)
         if h is not None:
